@@ -128,3 +128,34 @@ Theorem registered_all :
   registered V_W 0x2309 "set_zone_setpoint" = true /\ registered V_RQ 0x0418 "get_system_log_entry" = true /\
   registered V_RQ 0x3220 "get_opentherm_data" = true /\ registered V_RQ 0x0404 "get_schedule_fragment" = true.
 Proof. vm_compute. repeat split; reflexivity. Qed.
+
+(* ---------------------------------------------------------------- the getters with a fixed payload *)
+Lemma fg_all : forallb (fun g => forallb (fun i => match fgetter_payload g i with
+    | Some p => payload_ok V_RQ (fg_code g) p && registered V_RQ (fg_code g) (fg_name g) | None => false end) [0; 1]) all_fgetters = true.
+Proof. vm_compute. reflexivity. Qed.
+Lemma fg_in g : In g all_fgetters.  Proof. destruct g; cbn; tauto. Qed.
+Theorem fixed_getters_valid : forall g i, 0 <= i <= 1 -> exists p, fgetter_payload g i = Some p /\
+  payload_ok V_RQ (fg_code g) p = true /\ registered V_RQ (fg_code g) (fg_name g) = true.
+Proof.
+  intros g i Hi. pose proof fg_all as H. rewrite forallb_forall in H. specialize (H g (fg_in g)). rewrite forallb_forall in H.
+  assert (Hin : In i [0; 1]) by (cbn; lia). specialize (H i Hin).
+  destruct (fgetter_payload g i) as [p|]; [|discriminate]. apply andb_prop in H. destruct H as [H1 H2]. exists p. auto.
+Qed.
+(* the DHW getters share _check_idx with set_dhw_mode: any other zone or domain id is built and then rejected (the recorded dhw-idx-let-through finding) *)
+Lemma fg_dhw_all : forallb (fun g => forallb (fun i => match fgetter_payload g i with
+    | Some p => Bool.eqb (payload_ok V_RQ (fg_code g) p) (negb (fg_is_dhw g) || (i <=? 1))
+    | None => fg_is_dhw g && (15 <? i) && negb (i =? 0xF9) && negb (i =? 0xFA) && negb (i =? 0xFC) end) (zrange 256 0)) all_fgetters = true.
+Proof. vm_compute. reflexivity. Qed.
+Theorem fixed_getters_idx : forall g i, 0 <= i < 256 ->
+  match fgetter_payload g i with
+  | Some p => payload_ok V_RQ (fg_code g) p = true <-> (fg_is_dhw g = false \/ i <= 1)
+  | None => fg_is_dhw g = true /\ 15 < i /\ i <> 0xF9 /\ i <> 0xFA /\ i <> 0xFC end.
+Proof.
+  intros g i Hi. pose proof fg_dhw_all as H. rewrite forallb_forall in H. specialize (H g (fg_in g)). rewrite forallb_forall in H.
+  specialize (H i (in_zr 256 i Hi)). destruct (fgetter_payload g i) as [p|].
+  - apply Bool.eqb_prop in H. rewrite H. destruct (fg_is_dhw g); cbn; split; intro K.
+    + right. lia. + destruct K as [K|K]; [discriminate|lia]. + now left. + reflexivity.
+  - destruct (fg_is_dhw g); cbn in H; [|discriminate]. split; [reflexivity|]. lia.
+Qed.
+Theorem dhw_getter_idx_refuted : exists p, fgetter_payload FDhwMode 2 = Some p /\ payload_ok V_RQ (fg_code FDhwMode) p = false.
+Proof. eexists; split; [reflexivity | vm_compute; reflexivity]. Qed.
